@@ -7,6 +7,7 @@ package globalsim
 import (
 	"context"
 	"fmt"
+	"go.opentelemetry.io/otel/attribute"
 	"regexp"
 	"sort"
 	"strings"
@@ -43,7 +44,7 @@ func TestWorker(t *testing.T) { simdrv.Worker(t, engine{}) }
 type instKey struct {
 	meter string
 	name  string
-	kind  string // ci cf ui hi oc
+	kind  string // one of instKinds
 }
 
 //go:norace
@@ -57,8 +58,13 @@ type handle struct {
 	cf       metric.Float64Counter
 	ui       metric.Int64UpDownCounter
 	hi       metric.Int64Histogram
-	oc       metric.Int64ObservableCounter
-	m        metric.Meter // the meter object the instrument was obtained from
+	uf       metric.Float64UpDownCounter
+	hf       metric.Float64Histogram
+	gi       metric.Int64Gauge
+	gf       metric.Float64Gauge
+	obsI     metric.Int64Observable   // asynchronous kinds: oc ou og
+	obsF     metric.Float64Observable // asynchronous kinds: fc fu fg
+	m        metric.Meter             // the meter object the instrument was obtained from
 	probeBit int
 }
 
@@ -149,7 +155,29 @@ type planOp struct {
 	sleep time.Duration
 }
 
-var instKinds = []string{"ci", "cf", "ui", "hi", "oc"}
+// every instrument kind of the API: each has its own delegating type in internal/global/instruments.go
+var instKinds = []string{"ci", "cf", "ui", "hi", "oc", "uf", "hf", "gi", "gf", "ou", "og", "fc", "fu", "fg"}
+var asyncKinds = []string{"oc", "ou", "og", "fc", "fu", "fg"}
+
+//go:norace
+func isAsync(kind string) bool {
+	for _, k := range asyncKinds {
+		if k == kind {
+			return true
+		}
+	}
+	return false
+}
+
+//go:norace
+func kindIndex(kind string) int {
+	for i, k := range instKinds {
+		if k == kind {
+			return i
+		}
+	}
+	return 0
+}
 
 //go:norace
 func (engine) Body(r *simdrv.Run) {
@@ -189,7 +217,13 @@ func (engine) Body(r *simdrv.Run) {
 	mkCallback := func(cb *cbReg, h *handle) metric.Callback {
 		return func(_ context.Context, o metric.Observer) error {
 			cb.calls = append(cb.calls, sim.Stamp())
-			o.ObserveInt64(h.oc, int64(1000+cb.id))
+			// every callback observes under its own attribute set, so that the collected data names it
+			at := metric.WithAttributes(attribute.Int("cb", cb.id))
+			if h.obsI != nil {
+				o.ObserveInt64(h.obsI, int64(1000+cb.id), at)
+			} else {
+				o.ObserveFloat64(h.obsF, float64(1000+cb.id), at)
+			}
 			return nil
 		}
 	}
@@ -212,8 +246,26 @@ func (engine) Body(r *simdrv.Run) {
 			h.ui, _ = m.Int64UpDownCounter(key.name)
 		case "hi":
 			h.hi, _ = m.Int64Histogram(key.name)
+		case "uf":
+			h.uf, _ = m.Float64UpDownCounter(key.name)
+		case "hf":
+			h.hf, _ = m.Float64Histogram(key.name)
+		case "gi":
+			h.gi, _ = m.Int64Gauge(key.name)
+		case "gf":
+			h.gf, _ = m.Float64Gauge(key.name)
 		case "oc":
-			h.oc, _ = m.Int64ObservableCounter(key.name)
+			h.obsI, _ = m.Int64ObservableCounter(key.name)
+		case "ou":
+			h.obsI, _ = m.Int64ObservableUpDownCounter(key.name)
+		case "og":
+			h.obsI, _ = m.Int64ObservableGauge(key.name)
+		case "fc":
+			h.obsF, _ = m.Float64ObservableCounter(key.name)
+		case "fu":
+			h.obsF, _ = m.Float64ObservableUpDownCounter(key.name)
+		case "fg":
+			h.obsF, _ = m.Float64ObservableGauge(key.name)
 		}
 		h.ret = sim.Stamp()
 		w.handles = append(w.handles, h)
@@ -221,7 +273,7 @@ func (engine) Body(r *simdrv.Run) {
 		return h
 	}
 	measure := func(task string, h *handle, probe bool) {
-		if h.key.kind == "oc" {
+		if isAsync(h.key.kind) {
 			return
 		}
 		bit := w.nextBit[h.key]
@@ -242,6 +294,15 @@ func (engine) Body(r *simdrv.Run) {
 			h.ui.Add(ctx, v)
 		case "hi":
 			h.hi.Record(ctx, v)
+		case "uf":
+			h.uf.Add(ctx, float64(v))
+		case "hf":
+			h.hf.Record(ctx, float64(v))
+		case "gi":
+			// a gauge keeps the last value per attribute set: every measurement gets a set of its own
+			h.gi.Record(ctx, v, metric.WithAttributes(attribute.Int("bit", bit)))
+		case "gf":
+			h.gf.Record(ctx, float64(v), metric.WithAttributes(attribute.Int("bit", bit)))
 		}
 		op.ret = sim.Stamp()
 		r.Log("%d add %s bit=%d probe=%v task=%s (invoked %d)", op.ret, h.key, bit, probe, task, op.inv)
@@ -272,12 +333,12 @@ func (engine) Body(r *simdrv.Run) {
 				case "regcb":
 					var h *handle
 					for _, x := range mine {
-						if x.key.kind == "oc" {
+						if isAsync(x.key.kind) {
 							h = x
 						}
 					}
 					if h == nil {
-						op.ikind = 4
+						op.ikind = kindIndex(asyncKinds[(op.name+2*op.meter+len(mine))%len(asyncKinds)])
 						h = newHandle(name, op)
 						mine = append(mine, h)
 					}
@@ -286,7 +347,11 @@ func (engine) Body(r *simdrv.Run) {
 					myCbs = append(myCbs, cb)
 					// through the meter object the instrument came from (mixing a pre-installation instrument
 					// with a post-installation meter is rejected by the SDK with an error, by design)
-					reg, err := h.m.RegisterCallback(mkCallback(cb, h), h.oc)
+					var obs metric.Observable = h.obsI
+					if h.obsI == nil {
+						obs = h.obsF
+					}
+					reg, err := h.m.RegisterCallback(mkCallback(cb, h), obs)
 					cb.reg = reg
 					cb.regRet = sim.Stamp()
 					if err != nil {
@@ -502,6 +567,15 @@ func (engine) Body(r *simdrv.Run) {
 	// ---- oracle ----
 	// decode the final cumulative collection per (scope, metric)
 	got := map[string]int64{}
+	obsGot := map[string]map[int]float64{} // instrument -> callback id -> observed value in the final collection
+	noteObs := func(k string, as attribute.Set, v float64) {
+		if id, ok := as.Value("cb"); ok {
+			if obsGot[k] == nil {
+				obsGot[k] = map[int]float64{}
+			}
+			obsGot[k][int(id.AsInt64())] = v
+		}
+	}
 	for _, sm := range final.ScopeMetrics {
 		for _, m := range sm.Metrics {
 			k := sm.Scope.Name + "/" + m.Name
@@ -517,6 +591,35 @@ func (engine) Body(r *simdrv.Run) {
 			case metricdata.Histogram[int64]:
 				for _, dp := range d.DataPoints {
 					got[k] += dp.Sum
+				}
+			case metricdata.Histogram[float64]:
+				for _, dp := range d.DataPoints {
+					got[k] += int64(dp.Sum)
+				}
+			case metricdata.Gauge[int64]:
+				for _, dp := range d.DataPoints {
+					if b, ok := dp.Attributes.Value("bit"); ok && dp.Value == int64(1)<<b.AsInt64() {
+						got[k] |= dp.Value
+					}
+					noteObs(k, dp.Attributes, float64(dp.Value))
+				}
+			case metricdata.Gauge[float64]:
+				for _, dp := range d.DataPoints {
+					if b, ok := dp.Attributes.Value("bit"); ok && dp.Value == float64(int64(1)<<b.AsInt64()) {
+						got[k] |= int64(dp.Value)
+					}
+					noteObs(k, dp.Attributes, dp.Value)
+				}
+			}
+			// observations of asynchronous sums carry the callback's id
+			switch d := m.Data.(type) {
+			case metricdata.Sum[int64]:
+				for _, dp := range d.DataPoints {
+					noteObs(k, dp.Attributes, float64(dp.Value))
+				}
+			case metricdata.Sum[float64]:
+				for _, dp := range d.DataPoints {
+					noteObs(k, dp.Attributes, dp.Value)
 				}
 			}
 		}
@@ -595,6 +698,22 @@ func (engine) Body(r *simdrv.Run) {
 				}
 				if mustNot && n > 0 {
 					r.Violate(prop, "callback-after-unregister", "callback-after-unregister", "callback %d (%s) whose Unregister returned at %d was invoked by the collection %d..%d", cb.id, cb.key, cb.unRet, c.Inv, c.Ret)
+				}
+			}
+		}
+		// what the callbacks observed must be in the data: the final collection (made at quiescence) holds,
+		// for every callback still registered, its value under its own attribute set on its instrument
+		if fc := w.colls[len(w.colls)-1]; fc.Ret != 0 && fc.Err == nil && fc.Inv > w.setMP.Ret {
+			for _, cb := range w.cbs {
+				k := cb.key.meter + "/" + cb.key.name
+				v, present := obsGot[k][cb.id]
+				switch {
+				case cb.reg != nil && cb.regRet != 0 && cb.unInv == 0:
+					if !present || v != float64(1000+cb.id) {
+						r.Violate(prop, "observation-lost", "observation-lost/"+cb.key.kind, "callback %d observed %d on %s during the final collection %d..%d, the collected data holds %v (present %v)", cb.id, 1000+cb.id, cb.key, fc.Inv, fc.Ret, v, present)
+					}
+				case cb.unRet != 0 && cb.unRet < fc.Inv && present:
+					r.Violate(prop, "callback-after-unregister", "observation-after-unregister/"+cb.key.kind, "the final collection %d..%d holds an observation of callback %d on %s, whose Unregister returned at %d", fc.Inv, fc.Ret, cb.id, cb.key, cb.unRet)
 				}
 			}
 		}
